@@ -5,6 +5,7 @@ package valid
 import (
 	"reflect"
 	"strings"
+	"time"
 )
 
 // C12: a call's outcome is a function of its own arguments (plus globally
@@ -476,3 +477,92 @@ func H_C12_real_rule_sequences() {
 	vAssert((Struct(&vC18S{F: a.v}, RM{"F": a.rule}) != nil) == a.bad, "C12 sequence: third call (the first again, as a struct field)")
 	vReach("end")
 }
+
+// predecessors that are large or repeated rather than varied: whatever a call leaves in an object it
+// hands back (a counter, a high-water mark, a grown buffer) must not reach the next caller
+func vC12AfterLarge(pred int) {
+	// repeated predecessors under the LIFO pool (what one P does); single ones also under the adversarial pool
+	if pred == 2 || pred == 5 {
+		vPoolMode("lifo")
+	} else {
+		vPoolMode([]string{"lifo", "adversarial"}[vndChoice("pool", 2)])
+	}
+	vUNoFail = true
+	vGlobalRules()
+	real := &vT1{A: "a", B: "b", C: "c"}
+	switch pred {
+	case 0: // a sparse list: 40 nil elements, then one object
+		l := make([]*vT1, 41)
+		l[40] = real
+		_ = Struct(l)
+	case 1: // a map of 40 nil values
+		m := map[int]*vT1{}
+		for i := 0; i < 40; i++ {
+			m[i] = nil
+		}
+		_ = Struct(m)
+	case 2: // 34 calls, each with one nil element
+		for i := 0; i < 34; i++ {
+			_ = Struct([]*vT1{nil, real})
+		}
+	case 3: // a nested list of 40 nil elements inside an object
+		_ = Struct(&vC12Sparse{L: make([]*vT1, 40), M: map[string]*vT1{"a": nil, "b": nil}, A: [3]*vT1{}})
+	case 4: // 70 elements through Var with a rule list of 12 rules
+		xs := make([]int, 70)
+		for i := range xs {
+			xs[i] = i + 1
+		}
+		_ = Var(xs, "required", "unique", "le=100", "ge=1", "r1", "r2", "r3", "nosuch", "to=1~100", "gt=0", "lt=1000", "noeq=5")
+	case 5: // 34 failing calls
+		for i := 0; i < 34; i++ {
+			_ = Struct(&vT1{}, RM{"C": "required"})
+			_ = Var("", "required|need")
+			_ = Map(map[string]string{}, NewRule().Set("k", "required"))
+			_ = Url("h", NewRule().Set("k", "required"))
+		}
+	}
+	b := []int{0, 1, 2, 4, 5, 6, 7}[vndChoice("opB", 7)]
+	vC12Op(b, "b", true)
+	vReach("end")
+}
+
+func H_C12_after_large_inputs_0() { vC12AfterLarge(0) }
+func H_C12_after_large_inputs_1() { vC12AfterLarge(1) }
+func H_C12_after_large_inputs_2() { vC12AfterLarge(2) }
+func H_C12_after_large_inputs_3() { vC12AfterLarge(3) }
+func H_C12_after_large_inputs_4() { vC12AfterLarge(4) }
+func H_C12_after_large_inputs_5() { vC12AfterLarge(5) }
+
+type vC12Sparse struct {
+	L []*vT1          `valid:"exist"`
+	M map[string]*vT1 `valid:"exist"`
+	A [3]*vT1         `valid:"exist"`
+}
+
+// two datetime rules whose separator lists differ but read the same when written without the commas
+// ('-,,' and ',-,'; ',,' and the bare rule with empty separators; ...): each call is judged by its own layout
+// whatever ran before
+func H_C12_datetime_separator_pairs() {
+	alpha := []string{"-", "", ":"}
+	pick := func(n string) (string, string, string) {
+		return alpha[vndChoice(n+"d", 3)], alpha[vndChoice(n+"m", 3)], alpha[vndChoice(n+"c", 3)]
+	}
+	mk := func(d, m, c string) string { return "2024" + d + "02" + d + "29" + m + "10" + c + "05" + c + "59" }
+	d1, m1, c1 := pick("a")
+	d2, m2, c2 := pick("b")
+	vAssume(d1+m1+c1 == d2+m2+c2) // only the pairs that read alike are of interest here
+	_ = Var(mk(d1, m1, c1), "datetime='"+d1+","+m1+","+c1+"'")
+	layout := "2006" + d2 + "01" + d2 + "02" + m2 + "15" + c2 + "04" + c2 + "05"
+	v := []string{mk(d2, m2, c2), mk(d1, m1, c1)}[vndChoice("v", 2)]
+	_, perr := time.Parse(layout, v)
+	err := Var(v, "datetime='"+d2+","+m2+","+c2+"'")
+	vAssert((err != nil) == (perr != nil), "C12 datetime after a datetime with other separators that read alike: judged by this call's layout")
+	// the same for the date rule (two separators read alike when one is empty)
+	_ = Var("2024"+d1+"02", "year2month="+vQ(d1))
+	_, perr2 := time.Parse("2006"+d2+"01", "2024"+d2+"02")
+	err2 := Var("2024"+d2+"02", "year2month="+vQ(d2))
+	vAssert((err2 != nil) == (perr2 != nil), "C12 year2month after a year2month with another separator")
+	vReach("end")
+}
+
+func vQ(s string) string { return "'" + s + "'" }
